@@ -56,4 +56,28 @@ theorem forRange_sum (n : Nat) (x0 : Rat) (f : Nat → Rat) :
     rw [forRange_succ, ih, List.range_succ, List.map_append, Mouette.Ops.rsum_append]
     simp [rsum]; ring
 
+/-- `for v in l: x += g(v)` -/
+theorem forEach_sum {β : Type} (l : List β) (x0 : Rat) (g : β → Rat) :
+    forEach l x0 (fun x v => x + g v) = x0 + rsum (l.map g) := by
+  induction l generalizing x0 with
+  | nil => simp [forEach, rsum]
+  | cons v vs ih =>
+    simp only [forEach, List.foldl_cons, List.map_cons] at ih ⊢
+    rw [ih, Mouette.Ops.rsum_cons]; ring
+
+/-- scatter-add: `for c, v in enumerate(l): a[v] += g(c)` adds at `j` the `g c` of the positions `c` holding `j` -/
+theorem forEnumFrom_scatter_add (g : Nat → Rat) : ∀ (l : List Nat) (k : Nat) (a : Attr Rat) (j : Nat),
+    forEnumFrom k l a (fun a c v => upd a v (fun t => t + g c)) j
+      = a j + rsum ((l.zipIdx k).map (fun p => if p.1 = j then g p.2 else 0)) := by
+  intro l
+  induction l with
+  | nil => intro k a j; simp [forEnumFrom, rsum]
+  | cons v vs ih =>
+    intro k a j
+    rw [forEnumFrom, ih, List.zipIdx_cons, List.map_cons, Mouette.Ops.rsum_cons]
+    by_cases h : v = j
+    · subst h; simp [upd]; ring
+    · have h' : ¬ j = v := fun e => h e.symm
+      simp [upd, h, h']
+
 end Mouette.GeomSrc
